@@ -74,6 +74,7 @@ type vReq struct {
 	started bool
 	addr    string
 	norelay bool
+	sid     string // session id sent on the wire (default: the request name)
 }
 
 type vRig struct {
@@ -386,9 +387,9 @@ func (r *vRig) doProxy(q *vReq, sc *vScenario) vEvent {
 	var body []byte
 	var err error
 	if q.norelay {
-		body, err = json.Marshal(map[string]interface{}{"Sid": q.name, "Version": "1.2", "Type": ptype, "NAT": vWireNat(q.nat), "Clients": q.load})
+		body, err = json.Marshal(map[string]interface{}{"Sid": q.sid, "Version": "1.2", "Type": ptype, "NAT": vWireNat(q.nat), "Clients": q.load})
 	} else {
-		body, err = messages.EncodeProxyPollRequestWithRelayPrefix(q.name, ptype, vWireNat(q.nat), q.load, "")
+		body, err = messages.EncodeProxyPollRequestWithRelayPrefix(q.sid, ptype, vWireNat(q.nat), q.load, "")
 	}
 	if err != nil {
 		panic(err)
@@ -543,6 +544,10 @@ func (r *vRig) reqFromStep(st []interface{}, sc *vScenario) *vReq {
 		}
 		if i := strings.LastIndex(q.addr, ":"); i >= 0 {
 			q.addr = q.addr[:i]
+		}
+		q.sid = q.name
+		if len(st) > 4 && vStr(st[4]) != "" {
+			q.sid = vStr(st[4]) // a proxy that polls again with a session id it used before
 		}
 		return q
 	case "ClientMatch":
